@@ -284,7 +284,7 @@ func receiverRound(r *mon.Run, rng *rand.Rand, su recvSetup, udpIPs []string) (u
 	go recv.RunMetricsContext(rCtx)
 
 	t0 := time.Now().UnixNano()
-	lost := false
+	lost, totalsReached := false, true
 	if su.Mode == "udp" {
 		// Loopback UDP drops what does not fit the socket buffer, and the kernel charges far more than the payload per
 		// datagram: keep a small window in flight, measured with the receiver's own datagrams_received counter.
@@ -332,7 +332,7 @@ func receiverRound(r *mon.Run, rng *rand.Rand, su recvSetup, udpIPs []string) (u
 		}
 		// all read; every reader hands over at most one more batch. Counters only grow, so wait for the expected totals.
 		if !lost {
-			mon.WaitUntil(watchdog, func() bool {
+			totalsReached = mon.WaitUntil(watchdog, func() bool {
 				if !readSpy(pCtx, pSpy) {
 					return true
 				}
@@ -468,7 +468,9 @@ func receiverRound(r *mon.Run, rng *rand.Rand, su recvSetup, udpIPs []string) (u
 	if r.WantSample() && su.Round%4 == 0 {
 		r.Sample(map[string]interface{}{"variant": "receiver", "setup": su, "bytes": sent.bytes, "lines": sent.c.metrics + sent.c.events + sent.c.bad, "batches_read": rSpy.get("receiver.batches_read"), "maps": len(maps), "first_datagram": replay["first_datagram"]})
 	}
-	return lost, false
+	// a UDP round that never reached its totals has cost a whole watchdog: whatever the oracles said above, do not
+	// spend that again in this run
+	return lost || !totalsReached, false
 }
 
 func receiverVariant(r *mon.Run) {
